@@ -8,15 +8,71 @@ package simsync
 
 import (
 	"sync"
+	"unsafe"
 
 	"github.com/google/pprof/internal/verifsim/simrt"
 )
 
 type (
 	Locker = sync.Locker
-	Pool   = sync.Pool
 	Map    = sync.Map
 )
+
+// Pool mirrors sync.Pool with a deterministic LIFO free list (the real Pool
+// keeps per-P caches and, under -race, drops items at random: which object a
+// Get returns would depend on real scheduling). Like the real Pool it orders
+// a Put before the Get that returns the same object for the race detector.
+type Pool struct {
+	New   func() any
+	items []any
+	n     int
+	addr  [1]byte
+}
+
+//go:norace
+func (p *Pool) push(x any) {
+	if p.n == len(p.items) {
+		ni := make([]any, 2*len(p.items)+4)
+		for i := 0; i < p.n; i++ {
+			ni[i] = p.items[i]
+		}
+		p.items = ni
+	}
+	p.items[p.n] = x
+	p.n++
+}
+
+//go:norace
+func (p *Pool) pop() (any, bool) {
+	if p.n == 0 {
+		return nil, false
+	}
+	p.n--
+	x := p.items[p.n]
+	p.items[p.n] = nil
+	return x, true
+}
+
+func (p *Pool) Put(x any) {
+	if x == nil {
+		return
+	}
+	simrt.RaceReleaseMerge(unsafe.Pointer(&p.addr[0]))
+	p.push(x)
+	simrt.Point("pool-put", 0)
+}
+
+func (p *Pool) Get() any {
+	simrt.Point("pool-get", 0)
+	if x, ok := p.pop(); ok {
+		simrt.RaceAcquire(unsafe.Pointer(&p.addr[0]))
+		return x
+	}
+	if p.New != nil {
+		return p.New()
+	}
+	return nil
+}
 
 // Mutex mirrors sync.Mutex.
 type Mutex struct {
